@@ -194,7 +194,14 @@ func VerifRoutes(api VerifRouteAPI) {
 	if len(changes) == 0 {
 		vf.Cover("no change reported")
 	}
-	for _, chg := range changes {
+	cut := vf.Param("cut", "0") == "1"
+	k := len(changes)
+	if cut {
+		// the approve is cut off after k commands and run again
+		k = vf.FixInt(vf.Int("cut", 0, len(changes)))
+		lbl = "C10"
+	}
+	step := func(chg string) {
 		vf.Note("CHG:", chg)
 		if strings.Contains(chg, "\n") {
 			vf.Cover("replace in one transaction")
@@ -211,6 +218,24 @@ func VerifRoutes(api VerifRouteAPI) {
 					}
 				}
 			}
+		}
+	}
+	for _, chg := range changes[:k] {
+		step(chg)
+	}
+	if cut {
+		vf.Cover("resumed after cut")
+		devCut := base
+		for _, r := range tbl.routes {
+			devCut += verifRtLine(model, r) + "\n"
+		}
+		again, err := api.Changes(devCut, tgtText)
+		if err != nil {
+			vf.Assert(false, "C10: "+model+": resumed run failed: "+err.Error())
+			return
+		}
+		for _, chg := range again {
+			step(chg)
 		}
 	}
 	// C07: unmanaged VRFs / address families untouched
